@@ -247,10 +247,10 @@ static void pre_state(void)
 		nvx_exout_reset();
 		pre_model = model;
 		state_bad = compare_state("initial configuration");
-		if (state_bad) {
-			nv_err("the harness set-up script did not produce the initial configuration %s", cfg_name);
-			_exit(2);
-		}
+		/* the set-up script consists of commands of the alphabet (rs, k, a line number): a mismatch here
+		 * is a violation like any other (reported above); nothing is explored below it */
+		if (state_bad)
+			nx_bound = 0;
 	}
 }
 
